@@ -24,5 +24,6 @@ CentringIsDeclared == KDone => Scale(Cen, 6) = Scale(CentringTrans(XEntry(nm).ce
 PrimitiveIffNoCentring == KDone => (IsPrimitiveList(RotList) <=> Cen = {})
 FastIsAut == KDone => grp = Aut(XEntry(nm))
 GroupHasIdentity == KDone => CountIdentity(RotList) >= 1
+EmitTable == PrintT(ToString(<<"PMAT", PMatTable>>))
 Emit == KDone => PrintT(ToString(<<"XCELL", XEntry(nm), RotList, IsPrimitiveList(RotList)>>))
 =============================================================================
